@@ -409,6 +409,7 @@ impl PrefixInformation {
         self.flags.contains(PrefixInfoFlags::ADDRCONF)
             && self.prefix_len <= 128
             && !self.prefix.is_link_local()
+            && !self.prefix.is_multicast()
             && self.preferred_lifetime <= self.valid_lifetime
     }
 }
